@@ -188,7 +188,7 @@ Qed.
 Definition used_op (o : op) : Prop :=
   match o with
   | OLit _ _ | ONumbers _ | OAppend _ _ _ _ | OReverse _ _ | OConcat _ _ | OMap _ _ | OAccept _ _
-  | OTop _ _ | OSkip _ _ | OForce _ _ => True
+  | OTop _ _ | OSkip _ _ | OForce _ _ | OGuard _ _ => True
   | _ => False
   end.
 
@@ -212,6 +212,7 @@ Proof.
   - apply fzpres_if_lazy.
   - apply fzpres_if_lazy.
   - apply fzpres_eval_obj.
+  - apply fzpres_if_lazy.
 Qed.
 
 Lemma gstep_step : forall n0 a0 h o, inv h -> used_op o -> gstep n0 a0 h (step h o).
@@ -320,6 +321,26 @@ Proof.
     + rewrite (gstep_content _ _ _ _ _ G2) by lia. exact Hc.
 Qed.
 
+(* an operation that starts with List.Eval on a: fails without touching the heap when a's content is poisoned *)
+Lemma yields_alloc_eval : forall n0 a0 R (Q : R -> heap -> Prop) a (mk : heap -> op) (k : option nat -> script R) h xs,
+  inv h -> used_op (mk h) ->
+  (poisoned (icontent h a) = false -> pstep (abs h) (mk h) = abs h ++ [xs]) ->
+  (forall h' r, gstep n0 a0 h h' -> hrel h' r (if poisoned (icontent h a) then None else Some xs) -> yields n0 a0 Q (k r) h') ->
+  yields n0 a0 Q (alloc_eval a mk k) h.
+Proof.
+  intros n0 a0 R Q a mk k h xs Hinv U Hp K. unfold alloc_eval.
+  destruct (poisoned (icontent h a)) eqn:Ep.
+  - apply Y_do; rewrite Ep; cbn [fst snd]; [apply gstep_refl; auto|]. intros h2 G2. apply K; [exact G2|exact I].
+  - destruct (step_new h (mk h) xs Hinv (Hp eq_refl)) as [Hn Hc].
+    pose proof (gstep_step n0 a0 h (mk h) Hinv U) as G1.
+    apply Y_do; rewrite Ep; cbn [fst snd]; [exact G1|].
+    intros h2 G2. apply K.
+    + eapply gstep_trans; [exact G1|exact G2].
+    + cbn. split.
+      * pose proof (gstep_nobjs _ _ _ _ G2). lia.
+      * rewrite (gstep_content _ _ _ _ _ G2) by lia. exact Hc.
+Qed.
+
 Lemma abs_get : forall h a, nth a (abs h) [] = icontent h a.
 Proof. reflexivity. Qed.
 
@@ -392,9 +413,9 @@ Proof.
     apply (IHx R Q en se _ h1 (env_ok_mono _ _ _ _ _ _ G1 E)).
     intros h2 r2 G2 E2. subst r2. destruct (sp_z se x) as [v|] eqn:Ex; [|apply K; [gchain|exact I]].
     pose proof (hrel_mono _ _ _ _ (Some a) (Some xs) G2 R1) as [Ha Hc].
-    apply (yields_alloc n0 a0 R Q _ k h2 (xs ++ [v])); [eapply gstep_inv; eauto|exact I| |].
-    + unfold append_op. cbn [pstep]. rewrite have_true by exact Ha. rewrite abs_get, Hc. reflexivity.
-    + intros h3 r3 G3 R3. apply K; [gchain|exact R3].
+    apply (yields_alloc_eval n0 a0 R Q a _ k h2 (xs ++ [v])); [eapply gstep_inv; eauto|exact I| |].
+    + intros _. unfold append_op. cbn [pstep]. rewrite have_true by exact Ha. rewrite abs_get, Hc. reflexivity.
+    + rewrite Hc. intros h3 r3 G3 R3. apply K; [gchain|exact R3].
   - (* LMap *)
     intros kk l IHl R Q en se k h E K. cbn [sc_l]. pose proof E as (_ & Hz & Ha & _).
     apply (unary_alloc R Q l en se (fun a _ => OMap (ev_s en kk) a) (map (Z.add (ev_s en kk))) k (sp_l se (LMap kk l)) h IHl E).
@@ -435,19 +456,31 @@ Proof.
     + cbn [pstep]. rewrite !have_true by assumption. cbn [andb]. rewrite !abs_get, Hcx, Hcy. reflexivity.
     + intros h3 r3 G3 R3. apply K; [gchain|exact R3].
   - (* LReverse *)
-    intros l IHl R Q en se k h E K. cbn [sc_l].
-    apply (unary_alloc R Q l en se (fun a h1 => OReverse a (c_eval (e_cp en) (length (icontent h1 a)))) (@rev Z) k (sp_l se (LReverse l)) h IHl E).
-    + intros; exact I.
-    + intros a h1 Hlt. cbn [pstep]. rewrite have_true by exact Hlt. rewrite abs_get. reflexivity.
-    + reflexivity.
-    + exact K.
+    intros l IHl R Q en se k h E K. cbn [sc_l]. apply (IHl R Q en se _ h E).
+    intros h1 r1 G1 R1. cbn [sp_l] in K.
+    destruct r1 as [a|], (sp_l se l) as [xs|] eqn:El; cbn in R1; try contradiction; [|apply K; [exact G1|exact I]].
+    destruct R1 as [Ha Hc].
+    apply (yields_alloc_eval n0 a0 R Q a _ k h1 (rev xs)); [eapply gstep_inv; eauto|exact I| |].
+    + intros _. cbn [pstep]. rewrite have_true by exact Ha. rewrite abs_get, Hc. reflexivity.
+    + rewrite Hc. intros h2 r2 G2 R2. apply K; [gchain|exact R2].
   - (* LForce *)
     intros l IHl R Q en se k h E K. cbn [sc_l]. apply (IHl R Q en se _ h E).
     intros h1 r1 G1 R1. cbn [sp_l] in K.
-    destruct r1 as [a|] eqn:Er; [|apply K; [exact G1|exact R1]].
-    pose proof (gstep_step n0 a0 h1 (force_op (e_cp en) h1 a) (gstep_inv _ _ _ _ G1) I) as Gs.
-    apply Y_do; cbn [fst snd]; [exact Gs|]. intros h2 G2. apply K; [gchain|].
-    eapply hrel_mono; [|exact R1]. eapply gstep_trans; eauto.
+    destruct r1 as [a|], (sp_l se l) as [xs|] eqn:El; cbn in R1; try contradiction; [|apply K; [exact G1|exact I]].
+    destruct R1 as [Ha Hc]. pose proof (gstep_inv _ _ _ _ G1) as I1.
+    destruct (poisoned xs) eqn:Ep.
+    + apply Y_do; cbn beta; rewrite Hc, Ep; cbn [fst snd]; [apply gstep_refl; exact I1|].
+      intros h2 G2. apply K; [gchain|exact I].
+    + pose proof (gstep_step n0 a0 h1 (force_op (e_cp en) h1 a) I1 I) as Gs.
+      apply Y_do; cbn beta; rewrite Hc, Ep; cbn [fst snd]; [exact Gs|]. intros h2 G2. apply K; [gchain|].
+      eapply hrel_mono; [eapply gstep_trans; [exact Gs|exact G2]|]. cbn. split; auto.
+  - (* LGuard *)
+    intros v l IHl R Q en se k h E K. cbn [sc_l]. pose proof E as (_ & Hz & Ha & _).
+    apply (unary_alloc R Q l en se (fun a _ => OGuard (ev_s en v) a) (map (guard_elem (ev_s en v))) k (sp_l se (LGuard v l)) h IHl E).
+    + intros; exact I.
+    + intros a h1 Hlt. cbn [pstep]. rewrite have_true by exact Hlt. rewrite abs_get. reflexivity.
+    + cbn [sp_l]. rewrite (ev_s_spec en se v Hz Ha). reflexivity.
+    + exact K.
   - (* ZS *)
     intros s R Q en se k h E K. cbn [sc_z]. pose proof E as (Hi & Hz & Ha & _).
     apply K; [apply gstep_refl; exact Hi|]. cbn [sp_z]. rewrite (ev_s_spec en se s Hz Ha). reflexivity.
@@ -469,17 +502,23 @@ Proof.
     destruct r2 as [a|], (sp_l se l) as [xs|] eqn:El; cbn in R2; try contradiction; [|apply K; [gchain|reflexivity]].
     destruct (iv <? 0)%Z; [apply K; [gchain|reflexivity]|].
     destruct R2 as [Ha Hc]. pose proof (gstep_inv _ _ _ _ G2) as I2.
-    pose proof (gstep_step n0 a0 h2 (force_op (e_cp en) h2 a) I2 I) as Gs.
-    apply Y_do; cbn [fst snd]; [exact Gs|]. intros h3 G3. apply K; [gchain|].
-    unfold force_op. rewrite (force_items h2 a _ I2 Ha), Hc. reflexivity.
+    destruct (poisoned xs) eqn:Ep.
+    + apply Y_do; cbn beta; rewrite Hc, Ep; cbn [fst snd]; [apply gstep_refl; exact I2|].
+      intros h3 G3. apply K; [gchain|reflexivity].
+    + pose proof (gstep_step n0 a0 h2 (force_op (e_cp en) h2 a) I2 I) as Gs.
+      apply Y_do; cbn beta; rewrite Hc, Ep; cbn [fst snd]; [exact Gs|]. intros h3 G3. apply K; [gchain|].
+      unfold force_op. rewrite (force_items h2 a _ I2 Ha), Hc. reflexivity.
   - (* ZSize *)
     intros l IHl R Q en se k h E K. cbn [sc_z]. apply (IHl R Q en se _ h E).
     intros h1 r1 G1 R1. cbn [sp_z] in K.
     destruct r1 as [a|], (sp_l se l) as [xs|] eqn:El; cbn in R1; try contradiction; [|apply K; [exact G1|reflexivity]].
     destruct R1 as [Ha Hc]. pose proof (gstep_inv _ _ _ _ G1) as I1.
-    pose proof (gstep_step n0 a0 h1 (force_op (e_cp en) h1 a) I1 I) as Gs.
-    apply Y_do; cbn [fst snd]; [exact Gs|]. intros h2 G2. apply K; [gchain|].
-    unfold force_op. rewrite (force_items h1 a _ I1 Ha), Hc. reflexivity.
+    destruct (poisoned xs) eqn:Ep.
+    + apply Y_do; cbn beta; rewrite Hc, Ep; cbn [fst snd]; [apply gstep_refl; exact I1|].
+      intros h2 G2. apply K; [gchain|reflexivity].
+    + pose proof (gstep_step n0 a0 h1 (force_op (e_cp en) h1 a) I1 I) as Gs.
+      apply Y_do; cbn beta; rewrite Hc, Ep; cbn [fst snd]; [exact Gs|]. intros h2 G2. apply K; [gchain|].
+      unfold force_op. rewrite (force_items h1 a _ I1 Ha), Hc. reflexivity.
   - (* ZSum *)
     intros l IHl R Q en se k h E K. cbn [sc_z]. apply (IHl R Q en se _ h E).
     intros h1 r1 G1 R1. cbn [sp_z] in K.
@@ -612,8 +651,11 @@ Proof.
       destruct (nth_error cs i) as [a|], (nth_error cv i) as [xs|]; cbn in Hr; try contradiction.
       2:{ apply K; [apply gstep_refl; auto|exact I]. }
       destruct Hr as [Ha Hc].
+      destruct (poisoned xs) eqn:Ep.
+      { apply Y_do; cbn beta; rewrite Hc, Ep; cbn [fst snd]; [apply gstep_refl; auto|].
+        intros h2 G2. apply K; [exact G2|exact I]. }
       pose proof (gstep_step n0 a0 h (force_op cp h a) Hinv I) as Gs.
-      apply Y_do; cbn [fst snd]; [exact Gs|]. intros h2 G2.
+      apply Y_do; cbn beta; rewrite Hc, Ep; cbn [fst snd]; [exact Gs|]. intros h2 G2.
       unfold force_op. rewrite (force_items h a _ Hinv Ha), Hc.
       apply (IH cs _ cv k h2); [eapply gstep_inv; eauto|apply (forall2_mono n0 a0 h h2 cs cv (gstep_trans _ _ _ _ _ Gs G2) F)|].
       intros h3 r3 G3 R3. apply K; [gchain|exact R3].
@@ -760,3 +802,11 @@ Lemma generated_meets_spec_reachable_lemma : forall cp before p hist args j o,
   let g := run_hist cp new_generator before in
   eval_after cp (run_event cp g (EGen p)) hist (length (g_funcs g)) args j = o.
 Proof. intros. apply generated_meets_spec_lemma; [apply reachable_ok_lemma|assumption]. Qed.
+
+(* List.Eval's failure path, explicitly: when iterating object a hits a failing element, every operation that
+   starts with List.Eval on a (append, reverse; likewise eval, size, [i]) performs a step that returns the error
+   and leaves the heap - in particular the shared object a - exactly as it was *)
+Lemma failing_eval_changes_nothing_lemma : forall R a mk (k : option nat -> script R) h,
+  poisoned (icontent h a) = true ->
+  match alloc_eval a mk k with Do f => f h = (h, k None) | Done _ => False end.
+Proof. intros R a mk k h Hp. unfold alloc_eval. rewrite Hp. reflexivity. Qed.
